@@ -55,6 +55,18 @@ def forRange {σ : Type} (n : Int) (body : Int → σ → Option σ) (s : σ) : 
 def forDown {σ : Type} (start stop : Int) (body : Int → σ → Option σ) (s : σ) : Option σ :=
   (List.range (start - stop).toNat).foldlM (fun s (t : Nat) => body (start - (t : Int)) s) s
 
+/-- float ARITHMETIC on encoded doubles: uninterpreted.  Comparisons, `max`/`min`, negation and stores act on
+the encodings directly (order-preserving, odd); `+ - * /`, `exp` and int→float conversion are whatever these
+functions are — the refinement theorems hold for every choice, in particular for IEEE-754 binary64 with
+numpy's `exp`. -/
+structure FOps where
+  add : Int → Int → Int
+  sub : Int → Int → Int
+  mul : Int → Int → Int
+  div : Int → Int → Int
+  exp : Int → Int
+  ofInt : Int → Int
+
 /-- an `int | bool` value used where an int is expected (`False == 0`, `True == 1`). -/
 @[inline] def asInt : Sum Int Bool → Int
   | .inl p => p
